@@ -35,7 +35,8 @@ fn outputs_for(tests: &[TestCase], classes: &[String]) -> Vec<Output> {
         let mut stdout = pass_output(tc);
         let mut code = tc.exit_code.unwrap_or(0);
         match c.as_str() {
-            "output" => stdout.extend(b"NEW LINE\n"),
+            // the new line itself starts with a fence followed by text (the rewritten block must be fenced longer)
+            "output" => stdout.extend(b"```text NEW LINE\n"),
             "code" => code = 7,
             _ => {}
         }
